@@ -53,16 +53,19 @@ func (c GClient) opts() []string {
 }
 
 type GCase struct {
-	Run       int       `json:"run"`
-	Clients   []GClient `json:"clients"`
-	SchedTape []uint32  `json:"sched_tape,omitempty"`
-	ActiveNum int       `json:"active_num,omitempty"`
-	ActiveDen int       `json:"active_den,omitempty"`
-	SiteSeed  uint64    `json:"site_seed,omitempty"`
-	Budget    uint32    `json:"budget,omitempty"`
-	MapSeed   uint64    `json:"map_seed,omitempty"`
-	Race      bool      `json:"race,omitempty"`
-	Cold      bool      `json:"cold,omitempty"`
+	Run          int       `json:"run"`
+	Clients      []GClient `json:"clients"`
+	SchedTape    []uint32  `json:"sched_tape,omitempty"`
+	ActiveNum    int       `json:"active_num,omitempty"`
+	ActiveDen    int       `json:"active_den,omitempty"`
+	SiteSeed     uint64    `json:"site_seed,omitempty"`
+	Budget       uint32    `json:"budget,omitempty"`
+	MapSeed      uint64    `json:"map_seed,omitempty"`
+	Race         bool      `json:"race,omitempty"`
+	Cold         bool      `json:"cold,omitempty"`
+	FreezeClient int       `json:"freeze_client,omitempty"`
+	FreezeAt     int       `json:"freeze_at,omitempty"`
+	Procs        int       `json:"procs,omitempty"`
 }
 
 type GJob struct {
@@ -138,6 +141,9 @@ func (e *Env) gensimTexts(nGen int, thorough bool) []GText {
 		GText{"dup-rule", hdr + "S <- 'a' A\nA <- 'b'\nA <- 'c'\n"},
 		GText{"tiny", hdr + "S <- 'a' S / !.\n"},
 		// left recursion in its various guises (all of them only warned about)
+		// classes at the very top of the code space and around other boundaries, for the -switch pass
+		GText{"top-range", hdr + "S <- ([\\0x10FFF0-\\0x10FFFF] 'a' / [a-f] 'b' / [g-k]+ / [\\0x10FF00-\\0x10FFEF] / 'z')+ !.\n"},
+		GText{"boundaries", hdr + "S <- ([\\0x0-\\0x1] / [\\0x7E-\\0x80] 'x' / [\\0xFFFE-\\0x10001] 'y' / [\\0xD7FF-\\0xD7FF] / 'q' S)* T\nT <- [\\0x10FFFF-\\0x10FFFF] / 'a' / [b-c] T\n"},
 		GText{"lr-mutual", hdr + "S <- A 'q' / C\nA <- C 'x'\nC <- A / 'z'\n"},
 		GText{"lr-indirect3", hdr + "S <- A\nA <- B 'a' / 'x'\nB <- C 'b' / 'y'\nC <- A 'c' / 'z'\n"},
 		GText{"lr-nullable-prefix", hdr + "S <- A !.\nA <- B? A 'x' / 'y'\nB <- 'b'*\n"},
@@ -190,7 +196,7 @@ func buildGensim(e *Env, sc *Scratch, texts []GText, wantRace bool) (*gensimRig,
 	rig.weaver = &weave.Weaver{ModuleDir: rig.wrepo}
 	for _, d := range []string{"set", "tree", "zzsim/frontend"} {
 		// statement-level yields in the generator itself; the front end (an emitted parser) keeps function-level ones
-		opt := weave.Options{Yields: true, StmtYields: d != "zzsim/frontend", SyncTypes: true, Stderr: true, MapRanges: true}
+		opt := weave.Options{Yields: true, StmtYields: d != "zzsim/frontend", SyncTypes: true, Stderr: true, MapRanges: true, Procs: true}
 		if err := rig.weaver.WeaveDir(filepath.Join(rig.wrepo, d), d, opt); err != nil {
 			return nil, infra("weave %s: %v", d, err)
 		}
@@ -360,6 +366,16 @@ func (rig *gensimRig) shrink(v GViolation) GViolation {
 				d.Clients = append(d.Clients[:i], d.Clients[i+1:]...)
 				cands = append(cands, d)
 			}
+		}
+		if c.FreezeAt > 0 {
+			d := cloneG(c)
+			d.FreezeAt = 0
+			cands = append(cands, d)
+		}
+		if c.Procs > 1 {
+			d := cloneG(c)
+			d.Procs = 1
+			cands = append(cands, d)
 		}
 		if c.MapSeed != 0 && v.Outcome.Class != "map_order" {
 			d := cloneG(c)
